@@ -7,6 +7,7 @@ package main
 import (
 	"fmt"
 	"go/types"
+	"regexp"
 	"sort"
 	"strings"
 
@@ -123,6 +124,8 @@ func runC16(cx *Ctx, r *Report) {
 	cx.paramDivisions(r)
 	r.requireCount("authority-guard", 5)
 	r.requireCount("validated-writer", 5)
+	cx.rateBounds(r)
+	r.requireCount("rate-bounds", 8)
 	r.requireCount("coverage", 10)
 }
 
@@ -648,4 +651,109 @@ func (cx *Ctx) callersHoldPositiveReserves(f *ssa.Function) bool {
 		}
 	}
 	return true
+}
+
+// decBounds: for every LegacyDec field of a stored Params struct, the facts about
+// that very field that hold at every success exit of Validate.
+func (cx *Ctx) decBoundFacts() map[string][]FactT {
+	out := map[string][]FactT{}
+	for _, pk := range cx.P.Pkgs {
+		if !strings.HasPrefix(pk.PkgPath, modPrefix+"modules/") || pk.Types == nil {
+			continue
+		}
+		tn, _ := pk.Types.Scope().Lookup("Params").(*types.TypeName)
+		if tn == nil {
+			continue
+		}
+		named, _ := tn.Type().(*types.Named)
+		if named == nil {
+			continue
+		}
+		st, ok := named.Underlying().(*types.Struct)
+		if !ok {
+			continue
+		}
+		var validate *ssa.Function
+		for _, t := range []types.Type{named, types.NewPointer(named)} {
+			if sel := cx.P.SSA.MethodSets.MethodSet(t).Lookup(tn.Pkg(), "Validate"); sel != nil {
+				validate = cx.P.SSA.FuncValue(sel.Obj().(*types.Func))
+			}
+		}
+		if validate == nil || validate.Blocks == nil {
+			continue
+		}
+		w := newWalker(cx)
+		fr := &Frame{Fn: validate}
+		exits := successExitBlocks(validate)
+		for i := 0; i < st.NumFields(); i++ {
+			if !typeIs(st.Field(i).Type(), "cosmossdk.io/math", "LegacyDec") {
+				continue
+			}
+			fq := shortPkg(pk.PkgPath) + ".Params." + st.Field(i).Name()
+			var common map[string]FactT
+			for _, b := range exits {
+				cur := map[string]FactT{}
+				for _, ft := range w.exitFacts(fr, b, 0) {
+					if strings.Contains(ft.Text, "."+st.Field(i).Name()) {
+						cur[ft.String()] = ft
+					}
+				}
+				if common == nil {
+					common = cur
+				} else {
+					for k := range common {
+						if _, ok := cur[k]; !ok {
+							delete(common, k)
+						}
+					}
+				}
+			}
+			var fs []FactT
+			for _, k := range sortedKeys(common) {
+				fs = append(fs, common[k])
+			}
+			out[fq] = fs
+		}
+	}
+	return out
+}
+
+// rateBounds: every decimal (rate) parameter is accepted only inside [0, 1]:
+// at every success exit of Validate a comparison of that very field with zero
+// (lower) and with one (upper) has been decided in the accepting direction.
+func (cx *Ctx) rateBounds(r *Report) {
+	m := cx.decBoundFacts()
+	re := regexp.MustCompile(`^math\.LegacyDec\.(GT|GTE|LT|LTE)\(‹Params›\.(\w+)(#0)?, (math\.LegacyZeroDec\(\)|math\.LegacyOneDec\(\)|math\.LegacyNewDec\((0|1)\))\)$`)
+	for _, fq := range sortedKeys(m) {
+		field := fq[strings.LastIndex(fq, ".")+1:]
+		lower, upper := "", ""
+		for _, ft := range m[fq] {
+			mm := re.FindStringSubmatch(ft.Text)
+			if mm == nil || mm[2] != field {
+				continue
+			}
+			zero := strings.Contains(mm[4], "Zero") || mm[5] == "0"
+			op := mm[1]
+			switch {
+			case zero && ((op == "GT" || op == "GTE") && ft.Holds || (op == "LT" || op == "LTE") && !ft.Holds):
+				lower = ft.String()
+			case !zero && ((op == "LT" || op == "LTE") && ft.Holds || (op == "GT" || op == "GTE") && !ft.Holds):
+				upper = ft.String()
+			}
+		}
+		mod := fq[:strings.Index(fq, "/")]
+		r.check(lower != "" && upper != "", "rate-bounds", mod+"."+fq[strings.Index(fq, "Params."):], "", "accepted only with "+lower+" and "+upper, fmt.Sprintf("decimal parameter %s is accepted by Validate without a decided bound on the field itself {lower bound vs 0: %q, upper bound vs 1: %q}: a rate outside [0,1] makes the handlers that multiply and subtract it abort or mint", fq, lower, upper))
+	}
+}
+
+func init() {
+	dumps["decbounds"] = func(cx *Ctx) {
+		m := cx.decBoundFacts()
+		for _, k := range sortedKeys(m) {
+			fmt.Println(k)
+			for _, f := range m[k] {
+				fmt.Println("    ", f.String())
+			}
+		}
+	}
 }
